@@ -820,6 +820,9 @@ class Representation:
 
         if dtype is None:
             dtype = self.dtype
+            if np.can_cast(dtype, int):
+                # inverses of integer matrices are not integer matrices
+                dtype = np.dtype('float64')
 
         gln_adjoint = lie.hom.gln_adjoint(
             base_ring=base_ring, dtype=dtype
@@ -834,6 +837,9 @@ class Representation:
 
         if dtype is None:
             dtype = self.dtype
+            if np.can_cast(dtype, int):
+                # inverses of integer matrices are not integer matrices
+                dtype = np.dtype('float64')
 
         sln_adjoint = lie.hom.sln_adjoint(
             base_ring=base_ring, dtype=dtype
